@@ -50,7 +50,7 @@ type Prog struct {
 	AllFuncs map[*ssa.Function]bool
 	// Resolve, when set, finds a function by its role after the lookup by name failed (rel = module-
 	// relative package, typ = receiver type or "", name = the name the rules know it by).
-	Resolve func(rel, typ, name string) *ssa.Function
+	Resolve  func(rel, typ, name string) *ssa.Function
 	ModFuncs []*ssa.Function // functions (incl. anonymous and instances) of the module
 	declOf   map[*types.Func]*FuncSyntax
 	litOf    map[token.Pos]*FuncSyntax
